@@ -1,12 +1,19 @@
 /-
 Line-protocol driver for C03 (and the modelled parsers of C02).
-request : <format> <hex file bytes|-> <expected|?> [<decoded document>]
+request : <format> <hex file bytes|-> <expected|?> [<decoded document> | R:<records + layout>]
   (a) line formats  apk | gradle | gemfile | dpkg | requirements : the model parses the BYTES
   (b) decoded formats plock | composer | cargo | poetry | pipfile | pkgslock | gomod : the model runs on the
       decoded document (4th token, printed by the harness from the extractor's own decoder + struct)
   expected = the generator's package set (the specification's `installed` list), `?` for malformed inputs;
   both lists are `hex(name)@hex(version)` joined by ','; `-` is the empty list.
-reply   : pk=<sorted list|-|err|panic> spec=<sorted expected|?>
+reply   : pk=<sorted list|-|err|panic> spec=<sorted list|?> src=<lean|gen> [wf=<0|1> same=<0|1>]
+  For a line format whose case carries an R token (the generator's abstract records and layout, see
+  harness/cmd/c03gen/rtok.go) the driver rebuilds `Layout` and the `GRec` list, and answers from the SPECIFICATION:
+    wf   = the hypotheses of the format's C03 theorem (`WF`, `LayoutWF`, `LayoutOK`), decided
+    same = Lean `render layout records` is byte-for-byte the file the harness wrote
+    spec = `installed records` (src=lean)
+  Without an R token (malformed stream, records the Lean types cannot express, decoded formats) spec echoes the
+  generator's expected list (src=gen).
 -/
 import Scalibr.Base.Wire
 import Scalibr.Model.Parsers.Apk
@@ -15,6 +22,7 @@ import Scalibr.Model.Parsers.Gemfile
 import Scalibr.Model.Parsers.Dpkg
 import Scalibr.Model.Parsers.Requirements
 import Scalibr.Model.Lockfiles
+import Scalibr.Spec.Parsers
 open Scalibr Scalibr.Wire Scalibr.Parsers Scalibr.Lockfiles
 
 /-- Latin-1 embedding of bytes -/
@@ -129,25 +137,270 @@ def runDoc (fmt doc : String) : Option (Outcome (List (List Char × List Char)))
     | _ => none
   | _ => none
 
+/-! ### R tokens: the generator's records and layout, rebuilt as Spec values -/
+
+def dropS (s : String) (n : Nat) : String := String.ofList (s.toList.drop n)
+
+def hx? (s : String) : Option (List Char) := if s = "" then some [] else charsOfHex s
+
+structure RTok where
+  final : Bool
+  crlf : List Bool
+  items : List String
+
+def parseR (t : String) : Option RTok :=
+  if !t.startsWith "R:" then none else
+  match (dropS t 2).splitOn "|" with
+  | [hd, its] =>
+    match hd.splitOn "," with
+    | [f, bits] =>
+      some ⟨f = "1", if bits = "-" then [] else bits.toList.map (· = '1'), if its = "" then [] else its.splitOn ";"⟩
+    | _ => none
+  | _ => none
+
+def kvs? (s : String) : Option (List (List Char × List Char)) :=
+  if s = "" then some [] else (s.splitOn ".").mapM fun e => match e.splitOn "=" with
+    | [k, v] => match hx? k, hx? v with
+      | some k, some v => some (k, v)
+      | _, _ => none
+    | _ => none
+
+/-- blank-line runs around records: (blank lines before each record, blank lines after the last one) -/
+def runsOf {α : Type} (dec : String → Option α) : List String → Nat → List (Nat × α) → Option (List (Nat × α) × Nat)
+  | [], nb, acc => some (acc.reverse, nb)
+  | it :: rest, nb, acc =>
+    if it = "b" then runsOf dec rest (nb + 1) acc
+    else match dec it with
+      | some r => runsOf dec rest 0 ((nb, r) :: acc)
+      | none => none
+
+/-- lead / gap / tail of the apk and dpkg layouts from the runs; `none` when two records are not separated -/
+def gapsOf {α : Type} (runs : List (Nat × α)) : Option (Nat × List Nat) :=
+  match runs with
+  | [] => some (0, [])
+  | (lead, _) :: rest =>
+    if rest.all (fun x => x.1 ≥ 1) then some (lead, rest.map (fun x => x.1 - 1)) else none
+
+structure SpecAns where
+  wf : Bool
+  bytes : List Char
+  spec : List (List Char × List Char)
+
+def apkAns (t : RTok) : Option SpecAns :=
+  let dec (it : String) : Option Apk.GRec :=
+    if !it.startsWith "r" then none else
+    match (dropS it 1).splitOn "," with
+    | [n, v, vf, pre, mid, post] =>
+      match hx? n, hx? v, kvs? pre, kvs? mid, kvs? post with
+      | some n, some v, some pre, some mid, some post => some { name := n, ver := v, pre := pre, mid := mid, post := post, vFirst := vf = "1" }
+      | _, _, _, _, _ => none
+    | _ => none
+  match runsOf dec t.items 0 [] with
+  | none => none
+  | some (runs, tail) =>
+    match gapsOf runs with
+    | none => none
+    | some (lead, gaps) =>
+      let rs := runs.map (·.2)
+      let ℓ : Apk.Layout := { lead := if rs.isEmpty then 0 else lead, gap := fun i => gaps.getD i 0, tail := if rs.isEmpty then lead + tail else tail, eols := ⟨t.crlf, t.final⟩ }
+      some ⟨decide (Apk.WF rs ∧ Apk.LayoutOK ℓ rs), Apk.render ℓ rs, Apk.installed rs⟩
+
+def inlineWsChar (c : Char) : Bool := c = ' ' || c = '\t' || c.toNat = 11 || c.toNat = 12
+
+def gradleFiller? (l : List Char) : Option Gradle.Filler :=
+  let lead := l.takeWhile inlineWsChar
+  let rest := l.drop lead.length
+  match rest with
+  | [] => some (.blank l)
+  | '#' :: t => some (.comment lead t)
+  | _ => if hasPrefix "empty=".toList rest then some (.emptyConf lead (rest.drop 6)) else none
+
+/-- records with the filler lines in front of each, and the trailing fillers -/
+def fillRuns {ρ φ : Type} (decR : String → Option ρ) (decF : List Char → Option φ) :
+    List String → List φ → List (List φ × ρ) → Option (List (List φ × ρ) × List φ)
+  | [], fs, acc => some (acc.reverse, fs.reverse)
+  | it :: rest, fs, acc =>
+    if it.startsWith "f" then
+      match hx? (dropS it 1) with
+      | some l => match decF l with
+        | some f => fillRuns decR decF rest (f :: fs) acc
+        | none => none
+      | none => none
+    else match decR it with
+      | some r => fillRuns decR decF rest [] ((fs.reverse, r) :: acc)
+      | none => none
+
+def gradleAns (t : RTok) : Option SpecAns :=
+  let dec (it : String) : Option Gradle.GRec :=
+    if !it.startsWith "r" then none else
+    match ((dropS it 1).splitOn ",").mapM hx? with
+    | some [g, a, v, c, ld, tr] => some { group := g, artifact := a, ver := v, confs := c, lead := ld, trail := tr }
+    | _ => none
+  match fillRuns dec gradleFiller? t.items [] [] with
+  | none => none
+  | some (runs, after) =>
+    let rs := runs.map (·.2)
+    let befores := runs.map (·.1)
+    let ℓ : Gradle.Layout := { before := fun i => befores.getD i [], after := after, eols := ⟨t.crlf, t.final⟩ }
+    some ⟨decide (Gradle.WF rs ∧ Gradle.LayoutWF ℓ rs.length ∧ Gradle.LayoutOK ℓ rs), Gradle.render ℓ rs, Gradle.installed rs⟩
+
+def spTabChar (c : Char) : Bool := c = ' ' || c = '\t'
+
+def reqFiller? (l : List Char) : Option Requirements.Filler :=
+  let lead := l.takeWhile spTabChar
+  let rest := l.drop lead.length
+  match rest with
+  | [] => some (.blank l)
+  | '#' :: t => some (.comment lead t)
+  | '-' :: t => if lead.isEmpty then some (.option t) else none
+  | _ => none
+
+def reqOp? (o : List Char) : Option Requirements.Op :=
+  [Requirements.Op.eq3, .eq2, .ge, .le, .compat, .bare].find? (fun x => Requirements.opText x = o)
+
+def reqAns (t : RTok) : Option SpecAns :=
+  let dec (it : String) : Option Requirements.GRec :=
+    if !it.startsWith "r" then none else
+    match (dropS it 1).splitOn "," with
+    | [n, o, v, hasEx, ex, ld, s1, s2, hasC, cw, ct] =>
+      match hx? n, hx? o, hx? v, hx? ex, hx? ld, hx? s1, hx? s2, hx? cw, hx? ct with
+      | some n, some o, some v, some ex, some ld, some s1, some s2, some cw, some ct =>
+        (reqOp? o).map fun op => { name := n, op := op, ver := v, extras := if hasEx = "1" then some ex else none, lead := ld, sp1 := s1, sp2 := s2,
+                                   comment := if hasC = "1" then some (cw, ct) else none }
+      | _, _, _, _, _, _, _, _, _ => none
+    | _ => none
+  match fillRuns dec reqFiller? t.items [] [] with
+  | none => none
+  | some (runs, after) =>
+    let rs := runs.map (·.2)
+    let befores := runs.map (·.1)
+    let ℓ : Requirements.Layout := { before := fun i => befores.getD i [], after := after, eols := ⟨t.crlf, t.final⟩ }
+    some ⟨decide (Requirements.WF rs ∧ Requirements.LayoutWF ℓ rs.length ∧ Requirements.LayoutOK ℓ rs), Requirements.render ℓ rs, Requirements.installed rs⟩
+
+/-- sections: `s` header, then `p` (spec) / `a` (other indented line) / `b` (blank) items -/
+def gemSecs : List String → Nat → Option Gemfile.GSec → List (Nat × Gemfile.GSec) → Nat → Option (List (Nat × Gemfile.GSec))
+  | [], _, cur, acc, lead => some ((match cur with | some c => (lead, c) :: acc | none => acc).reverse)
+  | it :: rest, nb, cur, acc, lead =>
+    let push (i : Gemfile.Item) : Option (List (Nat × Gemfile.GSec)) :=
+      match cur with
+      | some c => gemSecs rest 0 (some { c with items := c.items ++ [i] }) acc lead
+      | none => none
+    if it = "b" then
+      (match cur with
+       | some _ => push .blank
+       | none => gemSecs rest (nb + 1) none acc lead)
+    else if it.startsWith "s" then
+      match hx? (dropS it 1) with
+      | some n => gemSecs rest 0 (some ⟨n, []⟩) (match cur with | some c => (lead, c) :: acc | none => acc) (match cur with | some _ => 0 | none => nb)
+      | none => none
+    else if it.startsWith "p" then
+      match (dropS it 1).splitOn "," with
+      | [n, v, pl] => match hx? n, hx? v, (if pl = "!" then some none else (hx? pl).map some) with
+        | some n, some v, some pl => push (.spec n v pl)
+        | _, _, _ => none
+      | _ => none
+    else if it.startsWith "a" then
+      match (dropS it 1).splitOn "," with
+      | [k, tx] => match k.toNat?, hx? tx with
+        | some k, some tx => push (.aux k tx)
+        | _, _ => none
+      | _ => none
+    else none
+
+def gemAns (t : RTok) : Option SpecAns :=
+  match gemSecs t.items 0 none [] 0 with
+  | none => none
+  | some runs =>
+    let secs := runs.map (·.2)
+    let leads := runs.map (·.1)
+    let ℓ : Gemfile.Layout := { lead := fun i => leads.getD i 0, eols := ⟨t.crlf, t.final⟩ }
+    some ⟨decide (Gemfile.WF secs ∧ Gemfile.LayoutOK ℓ secs), Gemfile.render ℓ secs, Gemfile.installed secs⟩
+
+def dpkgField? (s : String) : Option Dpkg.Field :=
+  match s.splitOn "=" with
+  | [k, sp, v, cs] =>
+    match hx? k, hx? sp, hx? v, (if cs = "" then some [] else (cs.splitOn "~").mapM hx?) with
+    | some k, some sp, some v, some cs => some ⟨k, sp, v, cs⟩
+    | _, _, _, _ => none
+  | _ => none
+
+def dpkgRec? (it : String) : Option Dpkg.GRec :=
+  if !it.startsWith "r" then none else
+  match ((dropS it 1).splitOn ".").mapM dpkgField? with
+  | none => none
+  | some fs =>
+    let byKey (k : String) : Option Dpkg.Field := fs.find? fun f => Dpkg.canonKey f.key = some k.toList
+    match byKey "Package", byKey "Status" with
+    | some fp, some fst =>
+      match Dpkg.splitSp fst.value [] with
+      | [w, fl, st] =>
+        let fv := byKey "Version"
+        let fsrc := byKey "Source"
+        let sig := [some fp, some fst, fv, fsrc].filterMap id
+        some { name := fp.value, ver := (fv.map (·.value)).getD [], want := w, flag := fl, state := st,
+               source := fsrc.map (·.value),
+               keyP := fp.key, keyS := fst.key, keyV := (fv.map (·.key)).getD "Version".toList, keySrc := (fsrc.map (·.key)).getD "Source".toList,
+               sepP := fp.sep, sepS := fst.sep, sepV := (fv.map (·.sep)).getD [' '],
+               extras := fs.filter (fun f => !sig.contains f), fields := fs }
+      | _ => none
+    | _, _ => none
+
+def dpkgAns (t : RTok) : Option SpecAns :=
+  match runsOf dpkgRec? t.items 0 [] with
+  | none => none
+  | some (runs, tail) =>
+    match gapsOf runs with
+    | none => none
+    | some (lead, gaps) =>
+      let rs := runs.map (·.2)
+      let ℓ : Dpkg.Layout := { lead := if rs.isEmpty then 0 else lead, gap := fun i => gaps.getD i 0, tail := if rs.isEmpty then lead + tail else tail, eols := ⟨t.crlf, t.final⟩ }
+      some ⟨decide (Dpkg.WF rs ∧ Dpkg.LayoutOK ℓ rs), Dpkg.render ℓ rs, Dpkg.installed rs⟩
+
+def specAns (fmt : String) (t : RTok) : Option SpecAns :=
+  match fmt with
+  | "apk" => apkAns t
+  | "gradle" => gradleAns t
+  | "gemfile" => gemAns t
+  | "dpkg" => dpkgAns t
+  | "requirements" => reqAns t
+  | _ => none
+
 def handle (line : String) : String :=
   match line.splitOn " " with
   | fmt :: hex :: expect :: rest =>
     let spec := sortList expect
-    let byBytes (f : List Char → Outcome (List (List Char × List Char))) : String :=
+    let byBytes (f : List Char → Outcome (List (List Char × List Char))) (r : Option String) : String :=
       match charsOfHex hex with
-      | some bs => s!"pk={fmtOutcome (f bs)} spec={spec}"
+      | some bs =>
+        let pk := fmtOutcome (f bs)
+        match r with
+        | none => s!"pk={pk} spec={spec} src=gen"
+        | some tok =>
+          match parseR tok with
+          | none => "bad-op"
+          | some t =>
+            match specAns fmt t with
+            | none => s!"pk={pk} spec={spec} src=gen"        -- records the Lean generator-side types cannot express
+            | some a => s!"pk={pk} spec={fmtPairs a.spec} src=lean wf={boolStr a.wf} same={boolStr (a.bytes == bs)}"
       | none => "bad-op"
-    match fmt, rest with
-    | "apk", [] => byBytes Apk.parse
-    | "gradle", [] => byBytes Gradle.parse
-    | "gemfile", [] => byBytes Gemfile.parse
-    | "dpkg", [] => byBytes Dpkg.parse
-    | "requirements", [] => byBytes Requirements.parse
-    | _, [doc] =>
-      match runDoc fmt doc with
-      | some o => s!"pk={fmtOutcome o} spec={spec}"
-      | none => "bad-op"
-    | _, _ => "bad-op"
+    let lineFmt (r : Option String) : Option String :=
+      match fmt with
+      | "apk" => some (byBytes Apk.parse r)
+      | "gradle" => some (byBytes Gradle.parse r)
+      | "gemfile" => some (byBytes Gemfile.parse r)
+      | "dpkg" => some (byBytes Dpkg.parse r)
+      | "requirements" => some (byBytes Requirements.parse r)
+      | _ => none
+    match rest with
+    | [] => (lineFmt none).getD "bad-op"
+    | [x] =>
+      match lineFmt (some x) with
+      | some reply => if x.startsWith "R:" then reply else "bad-op"
+      | none =>
+        match runDoc fmt x with
+        | some o => s!"pk={fmtOutcome o} spec={spec} src=gen"
+        | none => "bad-op"
+    | _ => "bad-op"
   | _ => "bad-op"
 
 def main : IO Unit := serve handle
